@@ -17,7 +17,8 @@ CLAIMS = {
              "WalRotator.current_writer with possibly-unsynced appends is overwritten unless a poison flag forces the next sync() "
              "to fail (forward must-dataflow on the CFG); R09.3 sync reaches File::sync_all on the very file append writes, errors "
              "propagated; R09.4 write_durable returns only the received ack. Right level: these are pairing/ordering facts visible "
-             "in the code shape on every path, which no test schedule can enumerate. R09.7 in ReplicatedShardedState::execute the Always policy reaches the reply only through an awaited write_durable of the shard's delta.",
+             "in the code shape on every path, which no test schedule can enumerate. R09.7 in ReplicatedShardedState::execute the Always policy reaches the reply only through an awaited write_durable of the shard's delta."
+             ' R09.8 WalRotator::new starts from the maximum sequence over every listed name.',
         technique="MIR dominance + forward must-dataflow (clean-writer typestate) + who-may-write field scan + call-chain check",
         ref="DESIGN.md §3 C09"),
     "C12": dict(
@@ -25,7 +26,8 @@ CLAIMS = {
              "pointer-before-delete, R12.3 atomic pointer swap (put temp -> rename, nothing in between, the live manifest key only "
              "used by get/exists/rename-destination), R12.4 a failed flush restores the taken buffer on every Err exit, R12.5 success "
              "reported only after the swap, R12.6 load/put/save failures are propagated (no fallback to a stale manifest). These are "
-             "ordering facts on every path between object-store calls - exactly the crash/fault points tests cannot enumerate. R12.7 every iteration over the taken deltas reaches SegmentWriter::write_delta with its error propagated.",
+             "ordering facts on every path between object-store calls - exactly the crash/fault points tests cannot enumerate. R12.7 every iteration over the taken deltas reaches SegmentWriter::write_delta with its error propagated."
+             ' R12.3 also requires every rename onto the manifest key to be dominated by the awaited Ok of a put of its source in the same function.',
         technique="MIR dominance over awaited Result edges in pre-lowering coroutine bodies, path search for buffer restore, who-may-use field scan",
         ref="DESIGN.md §3 C12"),
     "C08": dict(
@@ -35,7 +37,8 @@ CLAIMS = {
              "dominated by LamportClock::update(clock, &value.timestamp) (covers remote deltas and the recovery arm); R08.4 recovery "
              "is wired (checkpoint then deltas, before accept); R08.5 every remote delta reaches the clock-advancing ingest on all "
              "paths. These are who-may-write and must-pass-through facts over all paths incl. the never-tested recovery arm."
-             " R08.2 also requires the outer stamp of a value to be the tick taken for that write, and R08.1 that only the clock's owner replaces a clock wholesale.",
+             " R08.2 also requires the outer stamp of a value to be the tick taken for that write, and R08.1 that only the clock's owner replaces a clock wholesale."
+             " R08.6 the checkpoint snapshot is the shards' replicated_keys handed over whole (no filter, every shard); R08.7 wherever persisted deltas are discarded the clock's high-water mark must be persisted another way (known finding: compaction's tombstone pass, witnessed); R08.8 a fresh delta reaches gossip only after its WAL write.",
         technique="who-may-write field scan over all MIR bodies, store-shape classification, dominance / must-pass-through, value provenance",
         ref="DESIGN.md §3 C08"),
     "C10": dict(
@@ -113,7 +116,8 @@ CLAIMS = {
              "manifest read-modify-write must be re-validated before save (4 known findings incl. flush); R13.5 a failed fetch or decode "
              "never schedules a segment for removal, except a fetch that failed with ErrorKind::NotFound (both former findings are fixed); R13.6 manifest entries are dropped by membership in the id "
              "list derived from the folded segments; R13.7 tombstones are judged on the folded map only. Does not decide state equality. R13.1 also requires that the fold replaces an entry only behind `key absent` or a stamp comparison; R13.8 every folded delta is written; R13.9 the selection is an oldest-first prefix of the sorted candidates."
-             ' R13.10 the tombstone TTL is the whole configured duration (as_millis/as_secs, never a sub-second component).',
+             ' R13.10 the tombstone TTL is the whole configured duration (as_millis/as_secs, never a sub-second component).'
+             ' R13.11 (shared with C12 R12.1/R12.6) the segment a compaction registers is the object it just wrote successfully, and every manifest writer reloads first and gives up when the reload fails.',
         technique="MIR call/provenance analysis across closure captures, wall-clock vs logical-time provenance typing, path search from failure edges",
         ref="DESIGN.md §3 C13"),
     "C11": dict(
@@ -123,7 +127,8 @@ CLAIMS = {
              "truncating step is reported; load failures and decode errors propagate; validate precedes deltas; R11.3 the plain-insert "
              "recovery message has a single caller and deltas go through the merging ingest; R11.5 WAL deltas are appended on every "
              "path. Does not decide equality with the ground-truth merge. R11.2 also fixes the checkpoint filter to exactly `id > checkpoint id` and requires the loaded deltas of every iteration to be appended; R11.3 requires the recovered state to be handed over as received at both hops."
-             ' R11.6 the WAL-file loop visits every file and the recovered state is stored on every path of the ApplyRecoveredState arm.',
+             ' R11.6 the WAL-file loop visits every file and the recovered state is stored on every path of the ApplyRecoveredState arm.'
+             " R11.2 also requires the read of the manifest's checkpoint (get, open, validate, load) to propagate its errors.",
         technique="value-provenance chain analysis over iterator adaptors (incl. helpers), error-propagation analysis on awaited results, who-may-call",
         ref="DESIGN.md §3 C11"),
     "C06": dict(
@@ -185,7 +190,8 @@ CLAIMS = {
              "magic, version and checksum; R14.3 every decoded header field is fed to that header's CRC; R14.4 decode is dominated by a "
              "successful validate() at every consumer; R14.5 serde pairs use one format on one type, SDS writes/reads raw bytes in "
              "every serializer; R14.6 the WAL reader stops at the first undecodable entry. Does not decide value round-trips."
-             ' R14.7 the WAL entry decoder does not reject intact entries by size.',
+             ' R14.7 the WAL entry decoder does not reject intact entries by size.'
+             ' R14.8 every derived Serialize/Deserialize of the data model writes/reads as many fields as the struct declares; R14.9 the checkpoint encoder passes the state map it was given unchanged.',
         technique="codec layout extraction from MIR (ordered writer calls vs reader constant ranges), checksum field-coverage sets, dominance by validate() Ok edges",
         engine="mirfacts+rules",
         ref="DESIGN.md §3 C14"),
